@@ -1,4 +1,6 @@
 import ScrapliModel.Lemmas.Failed
+import ScrapliModel.Lemmas.GoSem
+import ScrapliModel.Generated.BodiesFailed
 /-!
 # C13 — Failure marking and stop-on-failed follow the configured failure strings
 
@@ -425,5 +427,31 @@ the multi-response (not failed), as the property demands. -/
 example : (sendConfig (σ := Nat) (fun i _ => (i + 1, if i == 0 then ofStr "x a" else ofStr "b y"))
     [ofStr "a\nb"] ⟨[], false⟩ ⟨0, []⟩ (ofStr "l1\nl2")).1.map (fun r => (r.failed.isSome, isInfix (ofStr "a\nb") r.result))
     = some (false, true) := by decide +kernel
+
+/-! ## tie to the source: translated bodies = model (regenerated on every run) -/
+
+/-- the `range` loop of `util.StringContainsAnySubStrs` as the translator renders it from the current
+source (`Generated/BodiesFailed.lean`) is `firstSubStr`, for every text and every list -/
+theorem generated_stringContainsAnySubStrs_eq (s : Bytes) (l : List Bytes) :
+    Gen.Bodies.Failed.stringContainsAnySubStrs s l = firstSubStr s l := by
+  unfold Gen.Bodies.Failed.stringContainsAnySubStrs Go.forRange
+  rw [Go.forRangeFrom_find (fun ss => isInfix ss s) (fun ss => ss)]
+  induction l with
+  | nil => simp [firstSubStr]
+  | cons a l ih =>
+    simp only [List.find?, firstSubStr]
+    cases h : isInfix a s <;> simp [ih]
+
+/-- the body of `(*Response).Record` as the translator renders it from the current source
+(`Generated/BodiesFailed.lean`; the two time stamps are declared not modelled): `RawResult` and
+`Result` become the recorded bytes and `Failed` is set exactly as `Resp.record` says (an
+`OperationError` with the input, the output and the first failure string found; untouched when
+none is found), for every response and every output -/
+theorem generated_record_eq (r : Resp) (raw0 b : Bytes) :
+    Gen.Bodies.Failed.record r.input r.fwc raw0 r.result r.failed b
+      = (b, (r.record b).result, (r.record b).failed) := by
+  unfold Gen.Bodies.Failed.record Resp.record
+  simp only [generated_stringContainsAnySubStrs_eq]
+  cases h : firstSubStr b r.fwc <;> simp
 
 end Scrapli.Failed.C13
